@@ -283,11 +283,19 @@ func (e *BridgeEnv) Snapshot() BridgeState {
 		}
 		s.Validators = append(s.Validators, [3]int64{e.ValID[e.ValAddr(i).String()], v.GetConsensusPower(sdk.DefaultPowerReduction), b})
 	}
-	for _, p := range e.App.OracleKeeper.GetProphecies(ctx) {
-		pid, ok := e.ProphecyID[p.ID]
-		if !ok {
+	// every known prophecy is read by id through the query path (GetProphecy), not through the listing that
+	// ExportGenesis uses, so that the reader does not share a defect with the export
+	var pids []string
+	for id := range e.ProphecyID {
+		pids = append(pids, id)
+	}
+	sort.Strings(pids)
+	for _, id := range pids {
+		p, found := e.App.OracleKeeper.GetProphecy(ctx, id)
+		if !found {
 			continue
 		}
+		pid := e.ProphecyID[p.ID]
 		pr := Prophecy{ID: pid, Status: int64(p.Status.Text) - 1, Final: -1, Claims: map[int64][]int64{}, VClaims: map[int64]int64{}}
 		if p.Status.FinalClaim != "" {
 			pr.Final = e.contentID(p.Status.FinalClaim)
